@@ -312,7 +312,7 @@ PROPS["C06"] = dict(
     groups=[
         K("alloc", ["zn::"], tier="thorough", functions=["section_header_by_name on a generated 7-section file with non-UTF-8 / duplicate / prefix names"], stubs=_STUBS,
           bounds="constant file, concrete absent query (every name is visited)", timeout_s=3300, extra_kani=["-Z", "stubbing"], jobs=1),
-        K("alloc", ["z::"], functions=["ElfBytes::minimal_parse and every ElfBytes accessor", "ParsingTable::{get,iter}", "StringTable::{get,get_raw}", "NoteIterator::next"], stubs=_STUBS,
+        K("alloc", ["z::", "zt::"], functions=["ElfBytes::minimal_parse and every ElfBytes accessor", "ParsingTable::{get,iter}", "StringTable::{get,get_raw}", "NoteIterator::next", "section_header_by_name on a 3-section file with a non-UTF-8 section name"], stubs=_STUBS,
           bounds="constant 128-byte file + fully symbolic SectionHeader/ProgramHeader arguments; open on <=66 symbolic bytes; views on <=24 symbolic bytes", timeout_s=1500, extra_kani=["-Z", "stubbing"], jobs=4),
         K("alloc", ["zw::"], functions=["witness: Vec::with_capacity under the same stubs must be caught"], stubs=_STUBS, bounds="n in 1..7", timeout_s=300, extra_kani=["-Z", "stubbing"],
           expect_fail="heap allocation reached"),
